@@ -65,7 +65,7 @@ class C18(Machine):
                   "edge_pop": rng.random() < 0.5, "root_len": rng.choice([None, None, 0.25, 2.0]), "junk": rng.choice([0, 0, 7, 101, 1000, 4096]),
                   "sd": rng.choice([0.0, 0.0, 0.1]), "period": rng.choice([None, 0.1, 1.0, 5.0]),
                   "strategy": rng.choice(["node_attribute", "node_attribute", "fixed_per_population", "random_uniform"]),
-                  "reuse_species_tree": rng.random() < 0.5, "decorate": rng.random() < 0.3, "ns_label_style": rng.choice([0, 0, 1, 2])}
+                  "reuse_species_tree": rng.random() < 0.5, "decorate": rng.random() < 0.3, "ns_label_style": rng.choice([0, 0, 1, 2]), "no_extinct_attr": rng.random() < 0.3}
             steps.append(st)
         return {"config": {}, "initial": {}, "steps": steps}
 
@@ -83,6 +83,8 @@ class C18(Machine):
                 # exactly those, case variants of them (the default namespace matches labels case-insensitively), or unrelated
                 style = ["T%d", "t%d", "sp%d"][st.get("ns_label_style", 0)]
                 kw["taxon_namespace"] = dendropy.TaxonNamespace([style % (i + 1) for i in range(k)])
+            if st.get("no_extinct_attr") and sim in ("birth_death", "treesim_birth_death"):
+                kw["is_add_extinct_attr"] = False       # a non-default flag: the nodes are not marked, the tree is the same
             if sim == "rand_trees":
                 del kw["rng"]
                 trees = list(treesim.rand_trees(rng, treesim.birth_death_tree, dict(kw, birth_rate=st["birth"], death_rate=st["death"]), 2))
